@@ -170,15 +170,17 @@ class TxMonitor {
     // candidates: pending requests with this source whose wire image is compatible with what follows
     ReqInfo* rq = nullptr;
     std::vector<uint8_t> W;
-    for (auto& r : reqs) {
+    // (several pending requests may carry identical bytes: one that is still open when the exchange starts is preferred over one that
+    // completed within the last symbol time, and among those the one with fewer exchanges so far)
+    for (int pass = 0; pass < 2 && !rq; pass++) for (auto& r : reqs) {
       if (r.master.empty() || r.master[0] != qq || r.submitted > log[start].t) continue;
-      if (r.done >= 0 && r.done < log[start].t - SYM) continue;
+      if (r.done >= 0 && r.done < log[start].t - (pass == 0 ? 0 : SYM)) continue;
       std::vector<uint8_t> w = specWire(r.master);
       // compare as many host bytes as follow
       size_t k = start + 1, p = 1;
       bool ok = true;
       while (k < n && p < w.size() && isHost(k)) { if (log[k].hostWrote != w[p]) { ok = false; break; } k++; p++; }
-      if (ok) { rq = &r; W = w; break; }
+      if (ok && (!rq || r.exchanges < rq->exchanges)) { rq = &r; W = w; }
     }
     size_t i = start + 1;
     if (!rq) {
